@@ -1004,6 +1004,7 @@ func c08Alphabet(upB bool) func(o *c08Obs) []c08Op {
 					c08Op{Kind: "CancelBid", S: s, Up: up(s), Name: n},
 					c08Op{Kind: "Update", S: s, Up: up(s), Name: n, Data: "upd"},
 					c08Op{Kind: "AddRecord", S: s, Up: up(s), Name: n, Rec: "www", Val: "v", Data: "d"},
+					c08Op{Kind: "AddRecord", S: s, Up: up(s), Name: n, Rec: "till", Val: c08AddrOf(s), Data: "d"}, // a record pointing at the signer itself
 					c08Op{Kind: "DelRecord", S: s, Up: up(s), Name: "www." + n},
 				)
 				for t := 0; t < 3; t++ {
@@ -1354,7 +1355,7 @@ func (g *c08Run) random() error {
 			case x < 92:
 				o.Kind = "AddRecord"
 				pickOwner()
-				o.Rec, o.Val, o.Data = PickOne(p, []string{"www", "Www", "mail"}), PickOne(p, []string{"v", "a.b"}), "d"
+				o.Rec, o.Val, o.Data = PickOne(p, []string{"www", "Www", "mail"}), PickOne(p, []string{"v", "a.b", c08AddrOf(o.S)}), "d"
 			case x < 94:
 				o.Kind = "DelRecord"
 				pickOwner()
